@@ -150,6 +150,12 @@ func (t *terminal) Resize(w, h int) error {
 	t.WithLock(func() {
 		t.mainScreen.setSize(w, h)
 		t.altScreen.setSize(w, h)
+		// Both buffers reported their own rendition, the hidden one last, and
+		// the cursor may have been brought inside the new size silently: leave
+		// the frontend with the values of the screen it shows.
+		pos := t.screen().CursorPos()
+		t.frontend.CursorMoved(pos.X, pos.Y)
+		t.frontend.StyleChanged(t.screen().Style())
 	})
 
 	if t.backend == nil {
